@@ -4,3 +4,44 @@ CLAIMED["C02"] = (
  "Generated-input search: expression trees (literals, + - * /, parentheses, sign prefixes, juxtaposition, k..Y suffixes, spacing, 4 separator conventions, assignment form) rendered to text, evaluated by the real library and compared with a reference evaluator over the tree; all trees with <= 3 operators over {2,3,5,7} enumerated exhaustively. Evidence counts distinguishing cases (those on which a wrong precedence/associativity/parenthesis reading gives a different value). It shows absence of violations on what was generated, not for all inputs.",
  "Trusted: the harness's reference evaluator and renderer (cross-checked against each other on every case by an independent token-level parser), f64 semantics of the host, tolerance 1e-9 relative. Quotient chains that read as a valid date are excluded by design.",
  "DESIGN.md section 5, C02")
+_note_common = "Trusted: the harness's own generators, renderers and reference model for this property; host f64/libc; the clock where the property depends on the current date. Absence of violations is established only for the generated cases; known findings listed in known_findings.json are counted, not reported."
+CLAIMED["C01"] = (
+ "property-based testing / fuzzing of execute(): generated Unicode, token-soup and corpus texts x language tags x setter configurations; oracle = no panic (call-site attribution), watchdog termination, status, slot count, slot-vs-standalone differential",
+ "Generated-input search over texts (arbitrary Unicode, token soup from a vocabulary derived from config.json and the grammar, boundary corpus), language tags (en, tr, unknown) and configurations reachable through the setters. Each evaluation runs under catch_unwind with the panic attributed to its smartcalc call site and under a 20 s watchdog (confirmed in a child process); status, the number of slots against an independent LF/CRLF splitter and the equality of every pre-assignment line with its standalone evaluation are checked.",
+ _note_common + " Termination is a watchdog verdict, not a proof.", "DESIGN.md section 5, C01")
+CLAIMED["C05"] = (
+ "property-based testing: generated (X, A, B, p) x ten phrase shapes x money spellings vs. the textbook formulas; metamorphic p% == %p",
+ "Generated-input search: numbers and money amounts in every rated currency and spelling, ten phrase shapes, both percent spellings, spaced/unspaced operators, four separator conventions; results compared in kind and value with the seven textbook formulas; the two percent spellings must agree exactly. A boundary panel is enumerated exhaustively.",
+ _note_common, "DESIGN.md section 5, C05")
+CLAIMED["C06"] = (
+ "property-based testing with a rate-table reference model; exhaustive enumeration of all ordered pairs of rated currencies and of all literal spellings; stateful histories of update_currency",
+ "All 161 currency codes as literals in every spelling, all 1024 ordered pairs of the 32 rated currencies (conversion, sum, ratio) enumerated exhaustively, plus generated amounts/spellings/connectives and arithmetic; call histories of update_currency (codes, aliases, symbols, unknown names) interleaved with evaluations on a fresh calculator, a fixed panel re-checked after every update against the model.",
+ _note_common, "DESIGN.md section 5, C06")
+CLAIMED["C07"] = (
+ "property-based testing: value x format settings vs. an independent formatter built on the exact decimal expansion of the double; exhaustive boundary table",
+ "Values injected exactly ([NUMBER:x]/[PERCENT:x] atoms, literals for money and units) under every digit count 0..9, both flags, seven separator pairs, all 161 currencies and 69 unit spellings; the printed string must equal one of the correctly rounded renderings computed from the exact decimal expansion (an exact binary tie accepts either neighbour). A table of rounding and grouping boundaries (+-1 ulp) is enumerated exhaustively.",
+ _note_common, "DESIGN.md section 5, C07")
+CLAIMED["C09"] = (
+ "property-based testing vs. an independent proleptic-Gregorian calendar model; exhaustive month-arithmetic grid; known-finding signatures modelled exactly",
+ "Dates of years 1..9999 in every spelling, letter case and language, impossible dates, +- days/weeks/months/years, differences in both orders, today/tomorrow/yesterday; expected values from an independent days-from-civil calendar; printed month word and year elision checked. A grid 12 months x N 0..36 x +- x three days of month and every month name of both languages are enumerated.",
+ _note_common + " Known findings F80/F81/F82 are recognised by comparing the observed result with an exact model of the defective algorithm, so any other wrong date is still reported.", "DESIGN.md section 5, C09")
+CLAIMED["C10"] = (
+ "property-based testing vs. hard-coded unit lengths; printed form parsed back and compared with the greedy decomposition; exhaustive boundary grid",
+ "1-3 groups of juxtaposed (count unit) parts joined by + or -, counts biased to carry boundaries, all spellings of en and tr, 'as|to|in|into' five target units; exact integer seconds from a hard-coded length table; the printed string is parsed with the language's words and must be the greedy decomposition with correct singular/plural.",
+ _note_common, "DESIGN.md section 5, C10")
+CLAIMED["C11"] = (
+ "property-based testing vs. the zone table; exhaustive enumeration of all ordered zone pairs; metamorphic round trip and default-zone independence; stateful set_timezone sequences",
+ "Times in 24-hour and am/pm forms with every usable zone abbreviation and GMT offset form, conversions, Z1->Z2->Z1 chains, +- durations (incl. negative-literal durations), differences, default zones set through set_timezone; the shown time is read from the AST (instant + offset) and from the printed string. All ordered pairs of zones are enumerated at fixed wall times; set_timezone call sequences are checked against a strict parser incl. rejected strings leaving the zone unchanged.",
+ _note_common, "DESIGN.md section 5, C11")
+CLAIMED["C12"] = (
+ "property-based testing vs. a hard-coded SI table; exhaustive enumeration of all ordered unit pairs; metamorphic linearity, transitivity and inverse relations",
+ "All 33 x 33 ordered unit pairs (incl. cross-kind pairs, which must not convert) x amounts x separator conventions enumerated; every configured unit name checked against a by-name definition table; generated conversions, chains, sums, scalings and ratios; linearity, transitivity and inverse are checked on the real code.",
+ _note_common, "DESIGN.md section 5, C12")
+CLAIMED["C13"] = (
+ "property-based testing with an independent radix formatter/parser; print -> read round trip; exhaustive boundary table",
+ "Integers 0..2^53 (powers of two +-1, 2^31, 2^32, random) as literals in four bases and letter cases, conversions to five target words with and without 'to', fractional sources, arithmetic; printed prefix/digits compared with an independent formatter and the printed literal is typed back in.",
+ _note_common, "DESIGN.md section 5, C13")
+CLAIMED["C14"] = (
+ "property-based testing vs. independent civil-from-days arithmetic; round trips timestamp -> date-time -> timestamp; metamorphic time-as-unix",
+ "Timestamps of years 1..9999 incl. negative and >= 2^31 to date / to zone, dates in every spelling as unix, times and date-time variables as unix, the three inverse forms, under default and explicit zones; printed fields recomputed independently from the instant and the offset, printed timestamps compared digit for digit.",
+ _note_common, "DESIGN.md section 5, C14")
